@@ -717,7 +717,10 @@ func TestVerifC17(t *testing.T) {
 			startup := []c17Op{{v, -1}, {a, -1}, {v, 0}, {a, 0}, {v, 1}, {a, 1}, {v, 2}, {a, 2}}
 			depth := 4
 			if !quick {
-				depth = 5
+				depth = 6
+			}
+			if e, err := strconv.Atoi(os.Getenv("VERIF_C17_DEPTH")); err == nil && e > 0 {
+				depth = e
 			}
 			type node struct{ hist []c17Op }
 			frontier := []node{{startup}}
